@@ -40,6 +40,7 @@ type Facts struct {
 	Effects      []Effect         // all classified external call sites in module functions
 	byCall       map[ssa.CallInstruction]*Effect
 	LockPrim     *ssa.Function
+	LockPrims    []*ssa.Function // every function that acquires flock and invokes a func parameter (normally one)
 	LockSites    []lockSite
 	LockWrappers map[*ssa.Function]bool // functions that forward a func parameter of theirs to the lock primitive
 	Callbacks    map[*ssa.Function]*lockSite
@@ -274,6 +275,7 @@ func computeFacts(p *Prog) (*Facts, error) {
 			if f.LockPrim != nil {
 				f.Problems = append(f.Problems, "more than one lock primitive: "+p.Name(f.LockPrim)+", "+p.Name(fn))
 			}
+			f.LockPrims = append(f.LockPrims, fn)
 			f.LockPrim = fn
 		}
 	}
